@@ -1,6 +1,7 @@
 SPEC = {
-    "lean_modules": ["AM.Props.C03"],
+    "lean_modules": ["AM.Props.Suppress", "AM.Props.C03"],
     "theorems": [
+        "AM.Suppress.suppressed_never_notified", "AM.Suppress.surviving_iff",
         # repaired code (fixes/F2.diff): full statements
         "AM.Inhibit.mutes_iff_spec", "AM.Inhibit.verdict_order_independent",
         "AM.Inhibit.status_reports_a_real_inhibitor", "AM.Inhibit.run_inv", "AM.Inhibit.inhibitedB_iff",
